@@ -1,8 +1,8 @@
 #!/verif/.venv/bin/python
 # Replay of a solver counterexample against the unmodified code (no shims).
-# property=C16 kernel=phase_fp label=k4:fp_phase_below_2pi
+# property=C08 kernel=build label=build:template_unchanged
 import sys
 sys.path[:0] = ['/repo' + "/pulser-core", '/repo' + "/pulser-simulation", "/verif"]
 from symx.replay import replay
-sys.exit(replay(check='checks.c16', kernel='phase_fp', shape={},
-                assignment={'x_bits': 9223389629040820224}, label='k4:fp_phase_below_2pi'))
+sys.exit(replay(check='checks.c08', kernel='build', shape={'program': 'blackman_shared_neg'},
+                assignment={}, label='build:template_unchanged'))
